@@ -24,7 +24,7 @@ From Coq Require Import ZArith QArith List Bool Lia Sorting.Permutation.
 Import ListNotations.
 From Osmo Require Import Base.DecModel CL.TickMath CL.CLMath CL.CLPool CL.CLSwap CL.CLStep CL.Ideal
   CLR.Accum CLR.Rewards CLR.RSwap CLR.RStep C07.Base C07.LP C08.Proj C08.Dom
-  C08.PaidOps C08.PaidHist C08.Inc C08.IncHist C01.Funds C01.Exact C01.Solvent C01.SwapPath C01.Potential C01.SwapSolvent C01.History C01.Full C01.SpreadAcc C01.Exit C01.ExitHist.
+  C08.PaidOps C08.PaidHist C08.Inc C08.IncHist C08.ClaimInv C01.Funds C01.Exact C01.Solvent C01.SwapPath C01.Potential C01.SwapSolvent C01.History C01.Full C01.SpreadAcc C01.Exit C01.ExitHist.
 Open Scope Z_scope.
 
 (* ==== the full statement (DESIGN.md section 5, C01) ==== *)
@@ -181,6 +181,18 @@ Theorem C01_spread_covered_partial : forall sp spf ssc isc users t ops c, 0 < sp
   fst c <= fst (b_spread (s_bank (r_base rs))) /\ snd c <= snd (b_spread (s_bank (r_base rs))).
 Proof. exact spread_covered_reachable. Qed.
 Print Assumptions C01_spread_covered_partial.
+
+(* the spread conjunct of Solv AS WRITTEN in Full.v (the claim queries succeed AND their sum is covered), PARTIAL only in its two explicit
+   arithmetic hypotheses: the rounding budget, and the LegacyDec range of the accumulator and of each claim ([spread_range_ok], C08/ClaimInv.v).
+   "Claim queries never fail" is discharged for spread rewards: the sign conditions are invariants (C08_spread_sign_conditions_reachable) *)
+Theorem C01_spread_covered_total_partial : forall sp spf ssc isc users t ops, 0 < sp -> 0 <= spf <= 500000000000000000 -> P18 <= ssc ->
+  let rs0 := rinit sp spf ssc isc users t in
+  let rs := rrun rs0 ops in
+  hist_pcost rs0 ops + Z.of_nat (length (s_pos (r_base rs))) < 2 * ssc ->
+  (forall p, In p (s_pos (r_base rs)) -> spread_range_ok rs p) ->
+  spread_covered rs.
+Proof. exact spread_covered_total. Qed.
+Print Assumptions C01_spread_covered_total_partial.
 
 (* ... hence every single collect of spread rewards is affordable, in any order (PARTIAL: same hypotheses) *)
 Theorem C01_each_spread_claim_affordable_partial : forall sp spf ssc isc users t ops d q, 0 < sp -> 0 <= spf <= 500000000000000000 -> 0 < ssc ->
